@@ -19,6 +19,7 @@ var (
 )
 
 func Setup() {
+	setupNodes()
 	root = hx.EmptyDoc()
 	exprs = map[string]*xsel.Grammar{}
 	for _, s := range []string{"string($x)", "number($x)", "boolean($x)", "not($x)", "not(not($x))",
